@@ -1,0 +1,382 @@
+//go:build verif
+
+package encoding
+
+// C14: name order, equality, prefix relation. Contracts for the gcv verifier (/verif).
+// The spec functions below are written from the NDN canonical order definition
+// (https://docs.named-data.net/NDN-packet-spec/current/name.html#canonical-order):
+//   components: by TLV-TYPE, then by TLV-LENGTH, then byte-wise on TLV-VALUE;
+//   names: component-wise from the left, a proper prefix sorts before the longer name.
+
+// specFirstDiff: the smallest index j >= i at which a and b differ, or where one of them ends.
+func specFirstDiff(a, b []byte, i int) int {
+	if i >= len(a) || i >= len(b) || a[i] != b[i] {
+		return i
+	}
+	return specFirstDiff(a, b, i+1)
+}
+
+// specCmpBytes: lexicographic byte order (shorter sequence first when one is a prefix of the other).
+func specCmpBytes(a, b []byte) int {
+	d := specFirstDiff(a, b, 0)
+	if d < len(a) && d < len(b) {
+		if a[d] < b[d] {
+			return -1
+		}
+		return 1
+	}
+	if len(a) < len(b) {
+		return -1
+	}
+	if len(a) > len(b) {
+		return 1
+	}
+	return 0
+}
+
+// specCmpComp: canonical order of two name components: -1, 0, +1.
+func specCmpComp(a, b Component) int {
+	if a.Typ < b.Typ {
+		return -1
+	}
+	if a.Typ > b.Typ {
+		return 1
+	}
+	if len(a.Val) < len(b.Val) {
+		return -1
+	}
+	if len(a.Val) > len(b.Val) {
+		return 1
+	}
+	return specCmpBytes(a.Val, b.Val)
+}
+
+// specEqComp: two components are the same component (same type, same value bytes).
+func specEqComp(a, b Component) bool {
+	return a.Typ == b.Typ && len(a.Val) == len(b.Val) &&
+		forallIn(0, len(a.Val), func(i int) bool { return a.Val[i] == b.Val[i] })
+}
+
+// Characterisation of specFirstDiff (induction on the distance to the end).
+//
+//@ func lemmaFirstDiff
+//@   requires 0 <= i
+//@   decreases len(a) - i
+//@   ensures specFirstDiff(a, b, i) >= i && (specFirstDiff(a, b, i) == i || (specFirstDiff(a, b, i) <= len(a) && specFirstDiff(a, b, i) <= len(b)))
+//@   ensures forallIn(i, specFirstDiff(a, b, i), func(j int) bool { return a[j] == b[j] })
+//@   ensures specFirstDiff(a, b, i) < len(a) && specFirstDiff(a, b, i) < len(b) ==> a[specFirstDiff(a, b, i)] != b[specFirstDiff(a, b, i)]
+func lemmaFirstDiff(a, b []byte, i int) {
+	if i >= len(a) || i >= len(b) || a[i] != b[i] {
+		return
+	}
+	lemmaFirstDiff(a, b, i+1)
+}
+
+//@ func (Component).Compare
+//@   requires typeIs(rhs, "*Component") ==> rhs.(*Component) != nil
+//@   uses lemmaFirstDiff
+//@   ensures typeIs(rhs, "Component") ==> result == specCmpComp(c, rhs.(Component))
+//@   ensures typeIs(rhs, "*Component") ==> result == specCmpComp(c, *rhs.(*Component))
+//@   ensures !typeIs(rhs, "Component") && !typeIs(rhs, "*Component") ==> result == -1
+
+//@ func (Component).Equal
+//@   requires typeIs(rhs, "*Component") ==> rhs.(*Component) != nil
+//@   ensures typeIs(rhs, "Component") ==> result == specEqComp(c, rhs.(Component))
+//@   ensures typeIs(rhs, "*Component") ==> result == specEqComp(c, *rhs.(*Component))
+//@   ensures !typeIs(rhs, "Component") && !typeIs(rhs, "*Component") ==> result == false
+
+// ---------------------------------------------------------------------------------------
+// names
+// ---------------------------------------------------------------------------------------
+
+// specCmpNameFrom: canonical order of the names a and b, given that their first i components are equal:
+// the first differing component decides; if one name ends first it is the smaller one.
+func specCmpNameFrom(a, b Name, i int) int {
+	if i >= len(a) || i >= len(b) {
+		if len(a) < len(b) {
+			return -1
+		}
+		if len(a) > len(b) {
+			return 1
+		}
+		return 0
+	}
+	if specCmpComp(a[i], b[i]) != 0 {
+		return specCmpComp(a[i], b[i])
+	}
+	return specCmpNameFrom(a, b, i+1)
+}
+
+// specCmpName: NDN canonical order on names.
+func specCmpName(a, b Name) int { return specCmpNameFrom(a, b, 0) }
+
+// specEqPrefix: the first k components of a and b are pairwise the same component.
+func specEqPrefix(a, b Name, k int) bool {
+	return forallIn(0, k, func(i int) bool { return specEqComp(a[i], b[i]) })
+}
+
+// specEqName: same number of components, pairwise the same.
+func specEqName(a, b Name) bool { return len(a) == len(b) && specEqPrefix(a, b, len(a)) }
+
+// specIsPrefix: a is a (not necessarily proper) prefix of b.
+func specIsPrefix(a, b Name) bool { return len(a) <= len(b) && specEqPrefix(a, b, len(a)) }
+
+//@ func (Name).Compare
+//@   ensures result == specCmpName(n, rhs)
+//@   loop 1 invariant 0 <= i && specCmpNameFrom(n, rhs, 0) == specCmpNameFrom(n, rhs, i)
+
+//@ func (Name).Equal
+//@   ensures result == specEqName(n, rhs)
+//@   loop 1 invariant 0 <= i && i <= len(n) && len(n) == len(rhs) && specEqPrefix(n, rhs, i)
+
+//@ func (Name).IsPrefix
+//@   ensures result == specIsPrefix(n, rhs)
+//@   loop 1 invariant 0 <= i && i <= len(n) && len(n) <= len(rhs) && specEqPrefix(n, rhs, i)
+
+// ---------------------------------------------------------------------------------------
+// Order-theoretic lemmas on the spec functions (ghost functions, verified like any function;
+// the inductive ones recurse along the component index).
+// ---------------------------------------------------------------------------------------
+
+// The first difference does not depend on the order of the arguments.
+//
+//@ func lemmaFirstDiffSym
+//@   requires 0 <= i
+//@   decreases len(a) - i
+//@   ensures specFirstDiff(a, b, i) == specFirstDiff(b, a, i)
+func lemmaFirstDiffSym(a, b []byte, i int) {
+	if i >= len(a) || i >= len(b) || a[i] != b[i] {
+		return
+	}
+	lemmaFirstDiffSym(a, b, i+1)
+}
+
+// C14-zero: components compare equal exactly when they are the same component.
+//
+//@ func lemmaCmpCompZeroIffEq
+//@   ensures (specCmpComp(a, b) == 0) == specEqComp(a, b)
+func lemmaCmpCompZeroIffEq(a, b Component) {
+	lemmaFirstDiff(a.Val, b.Val, 0)
+}
+
+// C14-range: the result is one of -1, 0, +1.
+//
+//@ func lemmaCmpCompRange
+//@   ensures specCmpComp(a, b) == -1 || specCmpComp(a, b) == 0 || specCmpComp(a, b) == 1
+func lemmaCmpCompRange(a, b Component) {}
+
+// C14-antisym (components): swapping the arguments negates the result (hence also totality:
+// exactly one of a<b, a==b, a>b).
+//
+//@ func lemmaCmpCompAntisym
+//@   ensures specCmpComp(a, b) == -specCmpComp(b, a)
+func lemmaCmpCompAntisym(a, b Component) {
+	lemmaFirstDiffSym(a.Val, b.Val, 0)
+	lemmaFirstDiff(a.Val, b.Val, 0)
+}
+
+// C14-trans (components): <= is transitive, and the composition is strict if one of the steps is.
+//
+//@ func lemmaCmpCompTrans
+//@   ensures specCmpComp(a, b) <= 0 && specCmpComp(b, c) <= 0 ==> specCmpComp(a, c) <= 0
+//@   ensures specCmpComp(a, b) <= 0 && specCmpComp(b, c) <= 0 && (specCmpComp(a, b) < 0 || specCmpComp(b, c) < 0) ==> specCmpComp(a, c) < 0
+func lemmaCmpCompTrans(a, b, c Component) {
+	lemmaFirstDiff(a.Val, b.Val, 0)
+	lemmaFirstDiff(b.Val, c.Val, 0)
+	lemmaFirstDiff(a.Val, c.Val, 0)
+}
+
+// C14-zero (names): Compare == 0 <=> Equal, stated from component i on.
+//
+//@ func lemmaCmpNameZeroIffEqFrom
+//@   requires 0 <= i && i <= len(a) && i <= len(b)
+//@   decreases len(a) - i
+//@   ensures (specCmpNameFrom(a, b, i) == 0) == (len(a) == len(b) && forallIn(i, len(a), func(j int) bool { return specEqComp(a[j], b[j]) }))
+func lemmaCmpNameZeroIffEqFrom(a, b Name, i int) {
+	if i >= len(a) || i >= len(b) {
+		return
+	}
+	lemmaCmpCompZeroIffEq(a[i], b[i])
+	lemmaCmpNameZeroIffEqFrom(a, b, i+1)
+}
+
+//@ func lemmaCmpNameZeroIffEq
+//@   ensures (specCmpName(a, b) == 0) == specEqName(a, b)
+func lemmaCmpNameZeroIffEq(a, b Name) {
+	lemmaCmpNameZeroIffEqFrom(a, b, 0)
+}
+
+// C14-antisym (names).
+//
+//@ func lemmaCmpNameAntisymFrom
+//@   requires 0 <= i
+//@   decreases len(a) - i
+//@   ensures specCmpNameFrom(a, b, i) == -specCmpNameFrom(b, a, i)
+func lemmaCmpNameAntisymFrom(a, b Name, i int) {
+	if i >= len(a) || i >= len(b) {
+		return
+	}
+	lemmaCmpCompAntisym(a[i], b[i])
+	lemmaCmpNameAntisymFrom(a, b, i+1)
+}
+
+//@ func lemmaCmpNameAntisym
+//@   ensures specCmpName(a, b) == -specCmpName(b, a)
+func lemmaCmpNameAntisym(a, b Name) {
+	lemmaCmpNameAntisymFrom(a, b, 0)
+}
+
+// C14-trans (names).
+//
+//@ func lemmaCmpNameTransFrom
+//@   requires 0 <= i
+//@   decreases len(a) - i
+//@   ensures specCmpNameFrom(a, b, i) <= 0 && specCmpNameFrom(b, c, i) <= 0 ==> specCmpNameFrom(a, c, i) <= 0
+//@   ensures specCmpNameFrom(a, b, i) <= 0 && specCmpNameFrom(b, c, i) <= 0 && (specCmpNameFrom(a, b, i) < 0 || specCmpNameFrom(b, c, i) < 0) ==> specCmpNameFrom(a, c, i) < 0
+func lemmaCmpNameTransFrom(a, b, c Name, i int) {
+	if i >= len(a) || i >= len(b) || i >= len(c) {
+		return
+	}
+	lemmaCmpCompTrans(a[i], b[i], c[i])
+	lemmaCmpCompRange(a[i], b[i])
+	lemmaCmpCompRange(b[i], c[i])
+	lemmaCmpNameTransFrom(a, b, c, i+1)
+}
+
+//@ func lemmaCmpNameTrans
+//@   requires specCmpName(a, b) <= 0 && specCmpName(b, c) <= 0
+//@   ensures specCmpName(a, c) <= 0
+//@   ensures specCmpName(a, b) < 0 || specCmpName(b, c) < 0 ==> specCmpName(a, c) < 0
+func lemmaCmpNameTrans(a, b, c Name) {
+	lemmaCmpNameTransFrom(a, b, c, 0)
+}
+
+// C14-prefix: IsPrefix agrees with Equal on the truncated name, and a prefix never sorts after the name
+// (executable lemma over the real methods).
+//
+//@ func lemmaPrefixIsEqualOnTruncation
+//@   ensures result
+func lemmaPrefixIsEqualOnTruncation(n, rhs Name) bool {
+	if len(n) > len(rhs) {
+		return !n.IsPrefix(rhs)
+	}
+	return n.IsPrefix(rhs) == n.Equal(rhs[:len(n)])
+}
+
+//@ func lemmaCompareZeroIffEqual
+//@   ensures result
+func lemmaCompareZeroIffEqual(n, rhs Name) bool {
+	lemmaCmpNameZeroIffEq(n, rhs)
+	return (n.Compare(rhs) == 0) == n.Equal(rhs)
+}
+
+//@ func lemmaCompareAntisym
+//@   ensures result
+func lemmaCompareAntisym(n, rhs Name) bool {
+	lemmaCmpNameAntisym(n, rhs)
+	return n.Compare(rhs) == -rhs.Compare(n)
+}
+
+// ---------------------------------------------------------------------------------------
+// C14 "parsing never panics on any string": URI parsers (safety contracts).
+// No precondition on the input string is allowed by the property statement.
+// ---------------------------------------------------------------------------------------
+
+// logical helpers (pseudo-builtins of gcv; executable counterparts where possible)
+func mapHas[K comparable, V any](m map[K]V, k K) bool { _, ok := m[k]; return ok }
+func forall(f any) bool                                { panic("forall: logical quantifier, not executable") }
+
+// wfCompConv: the naming-convention table built by initComponentConventions() (package init) exists and
+// holds complete entries. Global-state invariant, required by the parsers that consult the table.
+func wfCompConv() bool {
+	return forall(func(k string) bool {
+		return implies(mapHas(compConvByStr, k), compConvByStr[k] != nil && compConvByStr[k].vFmt != nil)
+	})
+}
+
+// A-MEM: a Go string that exists in memory is shorter than 2^48 bytes (assumed where a buffer of that size is allocated).
+func specStrFits(s string) bool { return len(s) <= 281474976710656 }
+
+//@ func (compValFmt).FromString
+
+//@ func (compValFmtInvalid).FromString
+
+//@ func (compValFmtDec).FromString
+
+//@ func (compValFmtHex).FromString
+//@   assume specStrFits(s)
+
+//@ func (compValFmtText).FromString
+//@   assume specStrFits(valStr)
+//@   loop 2 invariant 0 <= i && i <= len(valStr)
+
+//@ func parseCompTypeFromStr
+//@   requires wfCompConv()
+//@   ensures result2 == nil ==> result1 != nil
+
+//@ func componentFromStrInto
+//@   assume specStrFits(s)
+//@   requires ret != nil && wfCompConv()
+//@   modifies ret.Typ, ret.Val
+
+//@ func ComponentFromStr
+//@   requires wfCompConv()
+
+//@ func ComponentPatternFromStr
+//@   assume specStrFits(s)
+//@   requires wfCompConv()
+
+//@ func NameFromStr
+//@   requires wfCompConv()
+
+//@ func NamePatternFromStr
+//@   requires wfCompConv()
+
+// ---------------------------------------------------------------------------------------
+// A-HASH: abstract streaming hash (crypto/sha256, HMAC, xxhash are external dependencies).
+// A hasher is modelled by one ghost state: New/Reset put it into SpecHashInit(), Write(p) moves it to
+// SpecHashAbsorb(state, p), Sum/Sum64 read it through SpecHashByte / SpecHash64. The three symbols are
+// uninterpreted (deterministic functions). Limits of the model, on purpose: ONE live hasher at a time
+// (true for every function that uses it below), and SpecHashAbsorb sees a buffer as the slice value
+// (array, offset, length), i.e. the bytes it holds while nobody writes them.
+// The contracts of sha256.New, (hash.Hash).Write/Sum/Reset, (hash.Hash64).Sum64 that refer to this state
+// are in gcv's deps/hash.contract (assumed, A-DEP).
+// ---------------------------------------------------------------------------------------
+
+var GhostHashSt int
+
+func SpecHashInit() int                   { panic("ghost") }
+func SpecHashAbsorb(st int, p []byte) int { panic("ghost") }
+func SpecHashByte(st int, i int) byte     { panic("ghost") }
+func SpecHash64(st int) uint64            { panic("ghost") }
+
+// SpecHashWire: hasher state after absorbing the first k buffers of w, in order.
+func SpecHashWire(w Wire, k int) int {
+	if k <= 0 {
+		return SpecHashInit()
+	}
+	return SpecHashAbsorb(SpecHashWire(w, k-1), w[k-1])
+}
+
+// SpecHashWireFrom: hasher state after absorbing w[0..k) in order, starting in state st0.
+func SpecHashWireFrom(st0 int, w Wire, k int) int {
+	if k <= 0 {
+		return st0
+	}
+	return SpecHashAbsorb(SpecHashWireFrom(st0, w, k-1), w[k-1])
+}
+
+// SpecWireLen: total number of bytes in the first k buffers of w.
+func SpecWireLen(w Wire, k int) uint64 {
+	if k <= 0 {
+		return 0
+	}
+	return SpecWireLen(w, k-1) + uint64(len(w[k-1]))
+}
+
+//@ func (Wire).Length
+//@   ensures result == SpecWireLen(w, len(w))
+//@   loop 1 invariant ret == SpecWireLen(w, rangeindex+1)
+
+// SpecHmacInit: initial state of an HMAC keyed with key (uninterpreted).
+func SpecHmacInit(key []byte) int { panic("ghost") }
